@@ -131,12 +131,14 @@ class G:
             self.decls.append(f"class {n}(TypedDict, total=False):\n    a: Required[{t1}]\n    b: NotRequired[int]")
         else:
             self.decls.append(f"class {n}(TypedDict):\n    a: {t1}\n    b: int")
+        self.classes.append(n)
         return n, f"{{'a': {v1}, 'b': 2}}", False
 
     def newtype(self):
         n = self.fresh("NT")
         t, v, h = self.r.choice(KEY_LEAVES)
         self.decls.append(f"{n} = NewType({n!r}, {t})")
+        self.classes.append(n)
         self.tags.add("newtype")
         return n, v, h
 
@@ -570,12 +572,6 @@ def gen_schema(rng: random.Random, idx: int, defloc: str | None = None) -> dict:
             forced.append(g.inherited())
         roots.append(g.dataclass(0, root=True, forced_fields=forced))
     tail = [f"ROOTS.extend([{', '.join(roots)}])"]
-    if g.classes:
-        tail.append(f"CLASSES.extend([{', '.join(dict.fromkeys(g.classes))}])")
-    if g.dialects:
-        tail.append(f"DIALECTS.extend([{', '.join(g.dialects)}])")
-    for h, fn, c in g.ident:
-        tail.append(f"IDENT.append(({h}, {fn!r}, {c}))")
     # codecs: a dataclass without mixin / arbitrary type through every codec family
     ncodec = rng.choice([0, 1, 1, 2])
     for _ in range(ncodec):
@@ -589,6 +585,12 @@ def gen_schema(rng: random.Random, idx: int, defloc: str | None = None) -> dict:
         tail_decl = f"CODECS.append(({kind!r}, {t}, (lambda: {v}), {dd}))"
         tail.append(tail_decl)
         g.tags.add("codec:" + kind)
+    if g.classes:
+        tail.append(f"CLASSES.extend([{', '.join(dict.fromkeys(g.classes))}])")
+    if g.dialects:
+        tail.append(f"DIALECTS.extend([{', '.join(g.dialects)}])")
+    for h, fn, c in g.ident:
+        tail.append(f"IDENT.append(({h}, {fn!r}, {c}))")
     hdr = ("from __future__ import annotations\n" if future else "") + PRELUDE
     if future:
         g.tags.add("future-annotations")
@@ -601,3 +603,188 @@ def gen_schema(rng: random.Random, idx: int, defloc: str | None = None) -> dict:
         g.tags.add("scope:module")
     g.tags.add("defloc:" + defloc)
     return {"src": src, "module": g.module, "tags": sorted(g.tags), "defloc": defloc, "idx": idx}
+
+
+# ---------------------------------------------------------------------------
+# adversarial schemas for the identity half of the property
+# ---------------------------------------------------------------------------
+
+SHADOW_CLASS_NAMES = ["MISSING", "InvalidFieldValue", "cls", "decodebytes", "encodebytes", "datetime", "UUID", "collections",
+                      "typing", "MissingField", "NoneType", "value", "d", "kwargs", "int", "str", "isinstance", "dict",
+                      "ValueError", "setattr", "self", "Decimal", "CodeBuilder", "type", "Exception", "_cls", "decoder",
+                      "key", "mashumaro", "uuid", "iter_all_subclasses", "pass_through", "Fraction", "parse_timezone", "types"]
+SHADOW_MODULE_NAMES = ["value", "d", "cls", "dialect", "MISSING", "Field", "kwargs", "key", "self", "m", "variant"]
+
+POSITIONS = [("{c}", "{v}"), ("List[{c}]", "[{v}]"), ("Optional[{c}]", "{v}"), ("Dict[str, {c}]", "{{'k': {v}}}"), ("Tuple[{c}, ...]", "({v},)")]
+
+
+def _cls_src(kind: str, name: str, extra: int, indent: str = "") -> tuple[str, str]:
+    """source of a class of the given kind + a value expression (given the bound name NAME)"""
+    if kind == "dc-mixin":
+        src = f"@dataclass\nclass {name}(DataClassDictMixin):\n    x: int = {extra}\n    y{extra}: int = 0"
+        val = "{n}()"
+    elif kind == "dc-plain":
+        src = f"@dataclass\nclass {name}:\n    x: int = {extra}\n    y{extra}: int = 0"
+        val = "{n}()"
+    elif kind == "enum":
+        src = f"class {name}(enum.Enum):\n    A = {extra}\n    B = {extra + 10}"
+        val = "{n}.A"
+    elif kind == "intenum":
+        src = f"class {name}(enum.IntEnum):\n    A = {extra}\n    B = {extra + 10}"
+        val = "{n}.A"
+    elif kind == "namedtuple":
+        src = f"class {name}(NamedTuple):\n    a: int = {extra}"
+        val = "{n}()"
+    elif kind == "pathlike":
+        src = f"class {name}(pathlib.PurePosixPath):\n    pass"
+        val = "{n}('/p')"
+    else:
+        raise AssertionError(kind)
+    return "\n".join(indent + ln for ln in src.splitlines()), val
+
+
+def gen_identity_schema(rng: random.Random, idx: int, template: str | None = None) -> dict:
+    t = template or rng.choice(["same-qualname", "same-qualname", "clean-id", "functional-local", "bogus-module", "rebound",
+                                "mappingproxy", "defaultdict-local", "shadow-class", "shadow-class", "shadow-module",
+                                "control-local", "control-local", "make-dataclass-local"])
+    module = f"c17i_{idx}"
+    kind = rng.choice(["dc-mixin", "dc-plain", "enum", "intenum", "namedtuple", "pathlike"])
+    pt, pv = rng.choice(POSITIONS)
+    mixin = rng.choice(MIXINS[:3])
+    tags = {"identity:" + t, "idkind:" + kind, "idpos:" + pt}
+    L = []
+    codec = rng.random() < 0.3
+    if t in ("same-qualname", "control-local"):
+        nm2 = "L" if t == "same-qualname" else "L{n}"
+        body, val = _cls_src(kind, "L" if t == "same-qualname" else "LNAME", 0, "    ")
+        L.append("def mk(n):")
+        if t == "same-qualname":
+            L.append(_cls_src(kind, "L", 0, "    ")[0].replace("= 0", "= n", 1))
+            L.append("    return L")
+            L.append("L1 = mk(1); L2 = mk(2)")
+        else:
+            L.append("    if n == 1:")
+            L.append(_cls_src(kind, "La", 1, "        ")[0])
+            L.append("        return La")
+            L.append(_cls_src(kind, "Lb", 2, "    ")[0])
+            L.append("    return Lb")
+            L.append("L1 = mk(1); L2 = mk(2)")
+        names = ["L1", "L2"]
+    elif t == "clean-id":
+        k = rng.choice(["dc-mixin", "dc-plain", "enum"])
+        tags.add("idkind2:" + k)
+        kind = k
+        L.append("def mk():")
+        L.append(_cls_src(k, "A_B", 1, "    ")[0])
+        L.append("    class A:")
+        L.append(_cls_src(k, "B", 2, "        ")[0])
+        L.append("    return A_B, A")
+        L.append("A_B, A = mk()")
+        L.append("L1 = A_B; L2 = A.B")
+        val = _cls_src(k, "X", 0)[1]
+        names = ["L1", "L2"]
+    elif t == "functional-local":
+        form = rng.choice(["enum", "intenum", "namedtuple", "collections-namedtuple"])
+        tags.add("functional:" + form)
+        L.append("def mk():")
+        if form == "enum":
+            L.append("    return enum.Enum('FE', 'A B')")
+            val = "{n}.A"
+        elif form == "intenum":
+            L.append("    return enum.IntEnum('FE', 'A B')")
+            val = "{n}.A"
+        elif form == "namedtuple":
+            L.append("    return NamedTuple('FE', [('a', int)])")
+            val = "{n}(1)"
+        else:
+            L.append("    return collections.namedtuple('FE', ['a'])")
+            val = "{n}(1)"
+        L.append("L1 = mk()")
+        names = ["L1"]
+    elif t == "make-dataclass-local":
+        L.append("def mk():")
+        L.append("    return make_dataclass('MD', [('x', int)]" + rng.choice(["", ", bases=(DataClassDictMixin,)"]) + ")")
+        L.append("L1 = mk()")
+        val = "{n}(1)"
+        names = ["L1"]
+    elif t == "bogus-module":
+        L.append(_cls_src(kind, "K", 1)[0])
+        L.append("K.__module__ = 'no_such_package.no_such_module'")
+        L.append("L1 = K")
+        val = _cls_src(kind, "K", 1)[1]
+        names = ["L1"]
+    elif t == "rebound":
+        L.append(_cls_src(kind, "K", 1)[0])
+        L.append("L1 = K")
+        L.append(_cls_src(kind, "K", 2)[0])
+        L.append("L2 = K")
+        val = _cls_src(kind, "K", 1)[1]
+        names = ["L1", "L2"]
+    elif t == "mappingproxy":
+        names = []
+        val = ""
+    elif t == "defaultdict-local":
+        k = rng.choice(["dc-mixin", "enum", "dc-plain"])
+        L.append("def mk():")
+        L.append(_cls_src(k, "DL", 1, "    ")[0])
+        L.append("    return DL")
+        L.append("L1 = mk()")
+        val = _cls_src(k, "DL", 1)[1]
+        names = ["L1"]
+        pt, pv = "DefaultDict[str, {c}]", "collections.defaultdict({c}, {{'k': {v}}})"
+    elif t == "shadow-class":
+        sn = rng.choice(SHADOW_CLASS_NAMES)
+        tags.add("shadow:" + sn)
+        k = rng.choice(["dc-mixin", "dc-plain", "enum"])
+        src, val = _cls_src(k, sn, 1)
+        L.append(src)
+        L.append(f"L1 = {sn}")
+        # restore the prelude names the class definition has just shadowed inside this module
+        L.append("from dataclasses import dataclass, field, make_dataclass; import collections, datetime, typing, types, uuid, enum, pathlib")
+        names = ["L1"]
+    elif t == "shadow-module":
+        module = rng.choice(SHADOW_MODULE_NAMES)
+        tags.add("shadow-module:" + module)
+        k = rng.choice(["dc-mixin", "dc-plain", "enum"])
+        src, val = _cls_src(k, "K", 1)
+        L.append(src)
+        L.append("L1 = K")
+        names = ["L1"]
+    else:
+        raise AssertionError(t)
+
+    fields = []
+    mk = []
+    ident = []
+    for i, n in enumerate(names):
+        ft = pt.format(c=n)
+        if t == "defaultdict-local":
+            fv = pv.format(c=n, v=val.format(n=n))
+        else:
+            fv = pv.format(v=val.format(n=n))
+        fields.append(f"    f{i}: {ft}")
+        mk.append(f"f{i}={fv}")
+        ident.append(f"IDENT.append((H, 'f{i}', {n}))")
+    if t == "mappingproxy":
+        req = rng.random() < 0.5
+        fields.append("    f0: types.MappingProxyType[str, int]" + ("" if req else " = field(default_factory=lambda: types.MappingProxyType({}))"))
+        fields.append("    f1: int = 0")
+        mk.append("f0=types.MappingProxyType({'a': 1})")
+    else:
+        fields.append("    z: int = 0")
+    if codec:
+        L.append("@dataclass\nclass H:\n" + "\n".join(fields))
+        L.append(f"MAKE['H'] = lambda: H({', '.join(mk)})")
+        L.append(f"CODECS.append(({rng.choice(['basic', 'json', 'orjson', 'msgpack'])!r}, H, MAKE['H'], None))")
+        tags.add("id-entry:codec")
+    else:
+        L.append(f"@dataclass\nclass H({mixin}):\n" + "\n".join(fields))
+        L.append(f"MAKE['H'] = lambda: H({', '.join(mk)})")
+        L.append("ROOTS.append(H)")
+        tags.add("id-entry:mixin")
+    if names:
+        L.append(f"CLASSES.extend([{', '.join(names)}])")
+    if not codec:
+        L += ident
+    src = PRELUDE + "\n".join(L) + "\n"
+    return {"src": src, "module": module, "tags": sorted(tags), "defloc": "identity:" + t, "idx": idx, "template": t}
